@@ -661,7 +661,10 @@ func sumWorld(e *Env, c *CliCase) (items []string, files map[string][]string) {
 	dirs := map[string]bool{}
 	for _, f := range c.Files {
 		if f.Base == "src" && !f.Absent {
-			dirs[filepath.Dir(f.Rel)] = true
+			// every directory above the file is a candidate item
+			for d := filepath.Dir(f.Rel); d != "." && d != "/"; d = filepath.Dir(d) {
+				dirs[d] = true
+			}
 		}
 	}
 	for d := range dirs {
@@ -672,8 +675,10 @@ func sumWorld(e *Env, c *CliCase) (items []string, files map[string][]string) {
 	sort.Strings(items)
 	for _, it := range items {
 		for _, f := range c.Files {
-			if f.Base == "src" && !f.Absent && filepath.Dir(f.Rel) == it {
-				if ok, _ := filepath.Match(c.Cmd.Src, filepath.Base(f.Rel)); ok {
+			if f.Base == "src" && !f.Absent && strings.HasPrefix(f.Rel, it+"/") {
+				// the file pattern is relative to the item directory and may name a
+				// sub-directory
+				if ok, _ := filepath.Match(c.Cmd.Src, f.Rel[len(it)+1:]); ok {
 					files[it] = append(files[it], filepath.Join(e.Dir, "src", f.Rel))
 				}
 			}
